@@ -172,7 +172,7 @@ func (c *Ctx) ruleOnceErrPersists(rule string) {
 // receiver's content: stateful (advance internal state on every call) or pool-backed (the returned bytes alias a
 // buffer that goes back to a sync.Pool).
 var depAPI = map[string]string{
-	"(*github.com/jsightapi/jsight-schema-core/notations/regex.RSchema).Example":    "stateful: advances the example generator on every call",
+	"(*github.com/jsightapi/jsight-schema-core/notations/regex.RSchema).Example":   "stateful: advances the example generator on every call",
 	"(*github.com/jsightapi/jsight-schema-core/notations/jschema.JSchema).Example": "pooled: returns buf.Bytes() of a buffer that is put back into a sync.Pool",
 }
 
